@@ -1,0 +1,262 @@
+//go:build verif
+
+// Machine-checked contracts (read by /verif/bin/fsv; comment-only, guarded by the verif tag).
+// C08: cancellation attribution; C17: execution statistics; C15: the async result protocol; C01/C16: execute.
+
+package failsafe
+
+// ---------------------------------------------------------------------------------------------
+// Environment (assumed): atomics are sequentially consistent cells; contexts are monotone.
+//@ extfunc sync/atomic.(*Uint32).Add
+//@   requires x != nil
+//@   ensures x.v == old(x.v) + delta && result == x.v
+//@   modifies x.v
+//@ extfunc sync/atomic.(*Uint32).Load
+//@   requires x != nil
+//@   ensures result == x.v
+//@   modifies nothing
+//@ extfunc time.Now
+//@   modifies nothing
+//@ extfunc time.Since
+//@   modifies nothing
+//@   ensures result >= 0
+// ctx.Err(): non-nil exactly when the context is (now observed to be) cancelled; cancellation is monotone.
+//@ extfunc context.Context.Err
+//@   modifies canceled(self)
+//@   ensures (result != nil) == canceled(self) && (old(canceled(self)) ==> canceled(self))
+//@ extfunc context.Context.Done
+//@   modifies nothing
+//@ extfunc context.WithCancel
+//@   modifies nothing
+//@   ensures result_0 != nil && result_1 != nil && uf("ctxof", result_1) == result_0
+// calling a CancelFunc cancels its context
+//@ extfunc functype:context.CancelFunc
+//@   modifies canceled(uf("ctxof", self))
+//@   ensures canceled(uf("ctxof", self))
+
+//@ frozen execution.mtx, execution.startTime, execution.attempts, execution.retries, execution.hedges, execution.executions, execution.ctx, execution.cancelFunc, execution.canceledResult, execution.isHedge
+
+// The execution monitor: mtx and the canceledResult cell are shared by all copies of one execution.
+//@ monitor (*execution).mtx ptr
+//@   guards lastResult, lastError, attemptStartTime
+//@   owns cell:*github.com/failsafe-go/failsafe-go/common.PolicyResult
+
+//@ macro execWellFormed(e) = e != nil && e.mtx != nil && e.attempts != nil && e.retries != nil && e.hedges != nil && e.executions != nil && e.canceledResult != nil && e.ctx != nil && e.attempts != e.retries && e.attempts != e.hedges && e.attempts != e.executions && e.retries != e.hedges && e.retries != e.executions && e.hedges != e.executions
+
+// must be called with the lock held; observes the context once or twice
+//@ func (*execution).isCanceledWithResult
+//@   requires execWellFormed(e) && held(e.mtx)
+//@   let cr := cellof(e.canceledResult, *common.PolicyResult)
+//@   ensures [C08.observe] result_0 == canceled(e.ctx) && (old(canceled(e.ctx)) ==> result_0)
+//@   ensures [C08.observe_first] result_0 == (ret(e.ctx.Err, 1) != nil) && ncalls(e.ctx.Err) >= 1
+//@   ensures [C08.not_cancelled] !result_0 ==> result_1 == nil
+//@   ensures [C08.attribution.recorded] result_0 && cr != nil ==> result_1 == cr
+//@   ensures [C08.attribution.context] result_0 && cr == nil ==> result_1 != nil && fresh(result_1) && result_1.Error != nil && result_1.Done && !result_1.Success && !result_1.SuccessAll
+//@   modifies canceled(e.ctx), calls(e.ctx.Err)
+
+//@ func (*execution).IsCanceledWithResult
+//@   requires execWellFormed(e) && !held(e.mtx)
+//@   ensures [C08.public_observe] result_0 == canceled(e.ctx) && (result_0 ==> result_1 != nil) && (!result_0 ==> result_1 == nil)
+//@   modifies canceled(e.ctx), calls(e.ctx.Err)
+
+// Cancel records the result and cancels the context in one critical section -- which needs the cancel function.
+//@ func (*execution).Cancel
+//@   requires execWellFormed(e) && !held(e.mtx)
+//@   requires [C08.cancel_atomic] e.cancelFunc != nil && uf("ctxof", e.cancelFunc) == e.ctx
+//@   let was := ret(e.ctx.Err, 1) != nil
+//@   ensures [C08.cancel.records] !was ==> canceled(e.ctx) && cellof(e.canceledResult, *common.PolicyResult) == result
+//@   ensures [C08.cancel.last_result] !was && result != nil ==> e.lastResult == result.Result && e.lastError == result.Error
+//@   ensures [C08.cancel.first_wins] was ==> canceled(e.ctx)
+//@   modifies e.lastResult, e.lastError, *e.canceledResult, canceled(e.ctx), calls(e.ctx.Err), calls(e.cancelFunc)
+
+//@ func (*execution).RecordResult
+//@   requires execWellFormed(e) && !held(e.mtx)
+//@   let c := ret(e.ctx.Err, 1) != nil
+//@   ensures [C08.record.cancelled] c ==> result_0 != nil && canceled(e.ctx)
+//@   ensures [C17.record.last_result] !c ==> result_0 == nil && (result != nil ==> e.lastResult == result.Result && e.lastError == result.Error)
+//@   modifies e.lastResult, e.lastError, canceled(e.ctx), calls(e.ctx.Err)
+
+//@ func (*execution).InitializeRetry
+//@   requires execWellFormed(e) && !held(e.mtx)
+//@   requires e.attempts.v >= 1 && e.attempts.v <= 1073741824 && e.retries.v <= 1073741824
+//@   let c := ret(e.ctx.Err, 1) != nil
+//@   ensures [C08.retry.cancelled] c ==> result != nil && e.attempts.v == old(e.attempts.v) && e.retries.v == old(e.retries.v) && canceled(e.ctx)
+//@   ensures [C17.retry.counts] !c ==> result == nil && e.attempts.v == old(e.attempts.v) + 1 && e.retries.v == old(e.retries.v) + 1 && cellof(e.canceledResult, *common.PolicyResult) == nil
+//@   modifies e.attempts.v, e.retries.v, e.attemptStartTime, *e.canceledResult, canceled(e.ctx), calls(e.ctx.Err)
+
+// ---------------------------------------------------------------------------------------------
+// C17 -- statistics
+//@ func newExecution
+//@   ensures [C17.new] fresh(result) && execWellFormed2(result, ctx) && result.attempts.v == 1 && result.retries.v == 0 && result.hedges.v == 0 && result.executions.v == 0 && !result.isHedge && result.cancelFunc == nil && cellof(result.canceledResult, *common.PolicyResult) == nil && result.lastError == nil
+//@   modifies nothing
+//@ macro execWellFormed2(e, ctx) = e != nil && e.mtx != nil && e.attempts != nil && e.retries != nil && e.hedges != nil && e.executions != nil && e.canceledResult != nil && e.ctx == ctx && e.attempts != e.retries && e.attempts != e.hedges && e.attempts != e.executions && e.retries != e.hedges && e.retries != e.executions && e.hedges != e.executions
+
+//@ func (*execution).Attempts
+//@   requires e != nil && e.attempts != nil
+//@   ensures [C17.attempts] result == e.attempts.v
+//@   modifies nothing
+//@ func (*execution).Executions
+//@   requires e != nil && e.executions != nil
+//@   ensures [C17.executions] result == e.executions.v
+//@   modifies nothing
+//@ func (*execution).Retries
+//@   requires e != nil && e.retries != nil
+//@   ensures [C17.retries] result == e.retries.v
+//@   modifies nothing
+//@ func (*execution).Hedges
+//@   requires e != nil && e.hedges != nil
+//@   ensures [C17.hedges] result == e.hedges.v
+//@   modifies nothing
+//@ func (*execution).IsFirstAttempt
+//@   requires e != nil && e.attempts != nil
+//@   ensures [C17.first] result == (e.attempts.v == 1)
+//@   modifies nothing
+//@ func (*execution).IsRetry
+//@   requires e != nil && e.attempts != nil
+//@   ensures [C17.isretry] result == (e.attempts.v > 1)
+//@   modifies nothing
+//@ func (*execution).IsHedge
+//@   requires e != nil
+//@   ensures [C17.ishedge] result == e.isHedge
+//@   modifies nothing
+//@ func (*execution).record
+//@   requires e != nil && e.executions != nil && e.executions.v <= 1073741824
+//@   ensures [C17.record] e.executions.v == old(e.executions.v) + 1
+//@   modifies e.executions.v
+
+// copies share the counters, the lock and the cancel cell; the per-copy fields are taken under the lock
+//@ func (*execution).copy
+//@   requires execWellFormed(e) && !held(e.mtx)
+//@   ensures [C17.copy] fresh(result) && result.mtx == e.mtx && result.attempts == e.attempts && result.retries == e.retries && result.hedges == e.hedges && result.executions == e.executions && result.canceledResult == e.canceledResult && result.ctx == e.ctx && result.cancelFunc == e.cancelFunc && result.isHedge == e.isHedge && result.startTime == e.startTime
+//@   modifies nothing
+
+//@ func (*execution).CopyWithResult
+//@   requires execWellFormed(e) && !held(e.mtx)
+//@   let c := asref(result_0, *execution)
+//@   ensures [C17.copywithresult] typeis(result_0, *execution) && fresh(c) && c.attempts == e.attempts && c.executions == e.executions && c.retries == e.retries && c.hedges == e.hedges && c.ctx == e.ctx && (result != nil ==> c.lastResult == result.Result && c.lastError == result.Error)
+//@   modifies nothing
+
+//@ func (*execution).CopyForHedge
+//@   requires execWellFormed(e) && !held(e.mtx) && e.attempts.v <= 1073741824 && e.hedges.v <= 1073741824
+//@   let c := asref(result, *execution)
+//@   ensures [C17.copyforhedge] typeis(result, *execution) && fresh(c) && c.isHedge && c.attempts == e.attempts && c.hedges == e.hedges && e.attempts.v == old(e.attempts.v) + 1 && e.hedges.v == old(e.hedges.v) + 1 && e.retries.v == old(e.retries.v)
+//@   ensures [C08.hedge.cancellable] c.cancelFunc != nil && uf("ctxof", c.cancelFunc) == c.ctx && c.canceledResult == e.canceledResult && c.mtx == e.mtx
+//@   modifies e.attempts.v, e.hedges.v
+
+//@ func (*execution).CopyForCancellable
+//@   requires execWellFormed(e) && !held(e.mtx)
+//@   let c := asref(result, *execution)
+//@   ensures [C08.cancellable] typeis(result, *execution) && fresh(c) && c.cancelFunc != nil && uf("ctxof", c.cancelFunc) == c.ctx && c.canceledResult == e.canceledResult && c.mtx == e.mtx && c.attempts == e.attempts && c.isHedge == e.isHedge
+//@   modifies nothing
+
+// ---------------------------------------------------------------------------------------------
+// C15 -- the future protocol: store the result, then set the flag, then close the channel; once.
+//@ frozen executionResult.execution, executionResult.cancelFunc, executionResult.doneChan
+
+//@ func (*executionResult).record
+//@   requires e != nil && e.doneChan != nil && !closed(e.doneChan) && result != nil
+//@   ensures [C15.record.order] evtime("store:result", e) < evtime("store:done", e) && evtime("store:done", e) < evtime("close", e.doneChan)
+//@   ensures [C15.record.published] closed(e.doneChan) && atomval(e, "done", "bool") && cellof(atomval(e, "result", "ref"), *common.PolicyResult) == result
+//@   modifies closed(e.doneChan), e.done, e.result
+
+//@ func (*executionResult).IsDone
+//@   requires e != nil
+//@   ensures [C15.isdone] result == atomval(e, "done", "bool")
+//@   modifies nothing
+
+//@ func (*executionResult).Done
+//@   requires e != nil
+//@   ensures [C15.done_channel] result == e.doneChan
+//@   modifies nothing
+
+// Get blocks on the done channel and then reads the published cell.
+//@ func (*executionResult).Get
+//@   requires e != nil
+//@   requires atomval(e, "result", "ref") != nil ==> cellof(atomval(e, "result", "ref"), *common.PolicyResult) != nil
+//@   let p := atomval(e, "result", "ref")
+//@   ensures [C15.get.waits] evtime("recv", e.doneChan) >= old(now())
+//@   ensures [C15.get.values] p != nil ==> result_0 == cellof(p, *common.PolicyResult).Result && result_1 == cellof(p, *common.PolicyResult).Error
+//@   ensures [C15.get.zero] p == nil ==> result_0 == zeroval() && result_1 == nil
+//@   modifies tokens(e.doneChan)
+
+// Cancel: the cancel result is recorded on the execution; then the async context is cancelled.
+//@ func (*executionResult).Cancel
+//@   requires e != nil && e.execution != nil && execWellFormed(e.execution) && !held(e.execution.mtx)
+//@   requires [C15.cancel.repr] e.execution.cancelFunc != nil && uf("ctxof", e.execution.cancelFunc) == e.execution.ctx
+//@   let was := ret(e.execution.ctx.Err, 1) != nil
+//@   ensures [C15.cancel.error+C08.async.attribution] !was ==> canceled(e.execution.ctx) && cellof(e.execution.canceledResult, *common.PolicyResult) != nil && cellof(e.execution.canceledResult, *common.PolicyResult).Error == ErrExecutionCanceled && cellof(e.execution.canceledResult, *common.PolicyResult).Done
+//@   havoc
+//@   modifies e.execution.lastResult, e.execution.lastError, *e.execution.canceledResult, canceled(e.execution.ctx), calls(e.execution.ctx.Err), calls(e.execution.cancelFunc), calls(e.cancelFunc)
+
+// ---------------------------------------------------------------------------------------------
+// C15 / C01 -- the entry points
+//@ frozen executor.policies, executor.ctx, executor.onDone, executor.onSuccess, executor.onFailure
+//@ frozen elem:cell:github.com/failsafe-go/failsafe-go.Policy
+// the execution counters are internal cells: only library code changes them
+//@ confined sync/atomic.Uint32.v
+
+// the base function: fn exactly once, then the execution is counted, result wrapped as a success of "no policy"
+//@ func (*executor).execute$1
+//@   requires fn != nil && typeis(exec, *execution) && execWellFormed(asref(exec, *execution)) && !held(asref(exec, *execution).mtx) && asref(exec, *execution).executions.v <= 1073741824
+//@   ensures [C01.base.once] ncalls(fn) == 1
+//@   ensures [C01.base.result] fresh(result) && result.Result == ret(fn, 1, 0) && result.Error == ret(fn, 1, 1) && result.Done && result.Success && result.SuccessAll
+//@   ensures [C17.base.executions] asref(exec, *execution).executions.v == old(asref(exec, *execution).executions.v) + 1
+//@   ensures [C17.base.user_copy] withExec ==> arg(fn, 1, 0) != nil && typeis(reti_arg(fn, 1, 0), *execution) && fresh(asref(reti_arg(fn, 1, 0), *execution))
+//@   ensures [C17.base.no_exec] !withExec ==> arg(fn, 1, 0) == nil
+//@   havoc
+//@   modifies asref(exec, *execution).executions.v, calls(fn)
+
+// async: a cancellable child context, an execution that owns the cancel function (fix for F2), one runner
+//@ func (*executor).executeAsync
+//@   requires e != nil && e.ctx != nil
+//@   let r := asref(result, *executionResult)
+//@   ensures [C15.async.repr] typeis(result, *executionResult) && fresh(r) && r.execution != nil && execWellFormed(r.execution) && r.execution.cancelFunc != nil && uf("ctxof", r.execution.cancelFunc) == r.execution.ctx && r.doneChan != nil && !closed(r.doneChan) && chancap(r.doneChan) == 1 && !atomval(r, "done", "bool") && atomval(r, "result", "ref") == nil
+//@   ensures [C15.async.one_runner] spawned() == 1
+//@   modifies nothing
+
+// the runner: execute once, then publish its result (listeners have run inside execute)
+//@ func (*executor).executeAsync$1
+//@   requires result != nil && result.doneChan != nil && !closed(result.doneChan)
+//@   requires e != nil && exec != nil && fn != nil && execWellFormed(exec) && !held(exec.mtx)
+//@   requires forall j int :: 0 <= j && j < len(e.policies) ==> e.policies[j] != nil
+//@   havoc
+//@   ensures [C15.runner.publishes] closed(result.doneChan) && atomval(result, "done", "bool")
+//@   modifies closed(result.doneChan), result.done, result.result, *
+
+// ---------------------------------------------------------------------------------------------
+// C01 -- composition: executors are created innermost first, each Apply receives the function composed so far.
+//@ extfunc github.com/failsafe-go/failsafe-go.Policy.ToExecutor
+//@   modifies nothing
+//@   ensures result != nil && implements(result, policyExecutor) && fresh(payload(result))
+//@ extfunc github.com/failsafe-go/failsafe-go.policyExecutor.Apply
+//@   modifies nothing
+//@   ensures result != nil
+
+//@ macro exOf(e, j) = lastreti(e.policies[j].ToExecutor)
+//@ macro compOf(e, j) = lastret(exOf(e, j).Apply)
+//@ macro composedAt(e, j, n) = allocated(payload(exOf(e, j))) && ncalls(e.policies[j].ToExecutor) == 1 && ncalls(exOf(e, j).Apply) == 1 && (j == n-1 ==> clofn(lastarg(exOf(e, j).Apply, 0)) == fnid("(*executor).execute$1")) && (j < n-1 ==> lastarg(exOf(e, j).Apply, 0) == compOf(e, j+1))
+
+//@ func (*executor).execute
+//@   requires e != nil && fn != nil && outerExec != nil && execWellFormed(outerExec) && !held(outerExec.mtx)
+//@   requires forall j int :: 0 <= j && j < len(e.policies) ==> e.policies[j] != nil
+//@   premise forall j int, k int :: 0 <= j && j < k && k < len(e.policies) ==> e.policies[j] != e.policies[k]
+//@   premise forall f int, k int :: retabs(f, k) != nil
+//@   premise (e.onSuccess == nil || (e.onSuccess != e.onFailure && e.onSuccess != e.onDone)) && (e.onFailure == nil || e.onFailure != e.onDone)
+//@   oldlet n := len(e.policies)
+//@   loop 0 invariant -1 <= i && i < n
+//@   loop 0 invariant (i == n-1 ==> clofn(outerFn) == fnid("(*executor).execute$1")) && (i < n-1 ==> outerFn == compOf(e, i+1)) && outerFn != nil
+//@   loop 0 invariant [C01.order.inv] forall j int :: i < j && j < n ==> composedAt(e, j, n)
+//@   loop 0 invariant forall j int :: 0 <= j && j <= i ==> ncalls(e.policies[j].ToExecutor) == 0
+//@   loop 0 invariant forall f int :: !ismethod(f) ==> calls(f) == old(calls(f))
+//@   loop 0 invariant forall x iface :: !allocated(payload(x)) ==> ncalls(x.Apply) == 0
+//@   loop 0 decreases i + 1
+//@   ensures [C01.order] forall j int :: 0 <= j && j < n ==> composedAt(e, j, n)
+//@   atexit top := outerFn
+//@   ensures [C01.top] (n == 0 ==> clofn(top) == fnid("(*executor).execute$1")) && (n > 0 ==> top == compOf(e, 0))
+//@   ensures [C01.identity] ncalls(top) == 1 && arg(top, 1, 0) == asiface(outerExec) && result == ret(top, 1) && result != nil
+//@   ensures [C01.verdict+C16.executor.success] (e.onSuccess != nil && result.SuccessAll ==> ncalls(e.onSuccess) == 1 && arg(e.onSuccess, 1, 1) == result.Result && arg(e.onSuccess, 1, 2) == result.Error) && (!result.SuccessAll ==> ncalls(e.onSuccess) == 0)
+//@   ensures [C01.verdict+C16.executor.failure] (e.onFailure != nil && !result.SuccessAll ==> ncalls(e.onFailure) == 1 && arg(e.onFailure, 1, 1) == result.Result && arg(e.onFailure, 1, 2) == result.Error) && (result.SuccessAll ==> ncalls(e.onFailure) == 0)
+//@   ensures [C16.executor.done] e.onDone != nil ==> ncalls(e.onDone) == 1 && arg(e.onDone, 1, 1) == result.Result && arg(e.onDone, 1, 2) == result.Error
+//@   ensures [C15.listeners_before_return] (e.onDone != nil ==> tickof(top, 1) < tickof(e.onDone, 1)) && (e.onSuccess != nil && result.SuccessAll ==> tickof(top, 1) < tickof(e.onSuccess, 1))
+//@   havoc
+//@   modifies *
